@@ -28,7 +28,13 @@ class Injected(OSError):
     pass
 
 
+class Interrupted(KeyboardInterrupt):
+    """the injected failure as a BaseException that is no Exception (seeded/C14_r4: handlers written `except Exception`)"""
+
+
 class Inj:
+    kind = None
+
     def __init__(self):
         self.active = False
         self.trace = []
@@ -51,6 +57,8 @@ class Inj:
         self.trace.append(op)
         if self.fault is not None and k == self.fault:
             self.fired = True
+            if self.kind == "interrupt":
+                raise Interrupted("injected interrupt at op %d %r" % (k, op))
             raise Injected("injected fault at op %d %r" % (k, op))
 
 
@@ -390,6 +398,7 @@ def do_load(m, base, ld, kind, tmp):
         pass
     ident = {k: id(v) for k, v in mx.get_models().items()}
     cur0 = mx.cur_model() is m
+    INJ.kind = ld.get("fkind")
     INJ.start(ld.get("fault"), base)
     exc, vals = None, None
     try:
@@ -403,6 +412,7 @@ def do_load(m, base, ld, kind, tmp):
             vals = ["evalfail", excname(e)]
         r["loaded_name"] = x.name
     r["trace"] = INJ.stop()
+    INJ.kind = None
     r["fired"] = INJ.fired
     if INJ.fired:
         r["fault_index"] = ld.get("fault")
